@@ -107,13 +107,21 @@ def _closure_param(prog, clo, k, depth):
 _active = []
 
 
+def _const_tree(k):
+    """a constant operand as a tree; `&Some(false)` (a promoted variant with a scalar payload) as an aggregate"""
+    if "payload" in k and "variant" in k:
+        pl = k["payload"]
+        return ("agg", k["variant"], (("const", pl.get("int", pl.get("bool"))),))
+    return ("const", k.get("int", k.get("bool", k.get("str", k.get("ty")))))
+
+
 def prov(prog, body, place_or_op, depth=0):
     if depth > MAXD:
         return {("?", "depth")}
     if "l" not in place_or_op:
         k = op_const(place_or_op)
         if k is not None:
-            return {("const", k.get("int", k.get("bool", k.get("str", k.get("ty")))))}
+            return {_const_tree(k)}
     # a local that (transitively) depends on itself - a loop-carried counter - is named, not unrolled
     p0 = place_or_op if "l" in place_or_op else op_place(place_or_op)
     key = (body.id, p0["l"], repr(p0["p"])) if p0 is not None else None
@@ -131,7 +139,7 @@ def _prov(prog, body, place_or_op, depth):
     for o in origins(body, place_or_op, transparent=_VIEW):
         flds = [f for f in o.fields]
         if o.kind == "const":
-            out.add(("const", o.data.get("int", o.data.get("bool", o.data.get("str", o.data.get("ty"))))))
+            out.add(_wrap_fields(_const_tree(o.data), flds) if "payload" in o.data else _const_tree(o.data))
         elif o.kind == "param":
             if body.kind == "closure":
                 for e in _closure_param(prog, body, o.data, depth):
